@@ -65,7 +65,7 @@ CLAIMS["C14"] = {
             "notifies usize::MAX listeners on every path before returning a future that only holds a Weak (R14.3); in run() the only "
             "cancellable region is select(stop, preamble) with stop first, handler and close() lie outside it and the stop arm returns with "
             "no further I/O (R14.4); on every path from a suspension of the connection task (or its start) to a handler invocation the stop "
-            "listener is polled first, so no handler begins in a scheduling step that started after shutdown() (R14.5). The implication to the statement is the hand argument in DESIGN.md; scheduler liveness and the "
+            "listener is polled first, so no handler begins in a scheduling step that started after shutdown() (R14.5); every Runner value, clones included, owns a fresh wait group and stop event (R14.6). The implication to the statement is the hand argument in DESIGN.md; scheduler liveness and the "
             "linearizability of AtomicWaker/event-listener are trusted.",
     "note": "futures_util::future::select polls its first argument first (0.3.31, read in the registry source); AtomicWaker register/wake linearizable.",
     "design_ref": "DESIGN.md §4 C14",
@@ -150,7 +150,7 @@ CLAIMS["C11"] = {
             "of the handler's error and still calls close(); ABORT == Complete(b\"ABRT\") (R11.4); exactly three tolerated errors exist and "
             "the record-boundary drain consults the boundary predicate after every parse before reading again (R11.5); the next request "
             "parser skips the retained AbortRequest without replying (R11.6); the request parser's reply buffer (the abort's EndRequest) is flushed "
-            "before every parser conversion (R11.7). With C07's R7.3/R7.4 this gives exactly one EndRequest and "
+            "before every parser conversion (R11.7); the body and padding of an abort record of any length are skipped with arithmetic that cannot overflow or truncate (R11.8 = R3.11 for into_skip / SkipState::drive). With C07's R7.3/R7.4 this gives exactly one EndRequest and "
             "reuse under KeepConn. Does NOT decide that input delivered before the error is a prefix of what was sent (C02-level).",
     "note": "Reuses the extraction code of C04 / C07 / C12 and reports under C11's rule ids.",
     "design_ref": "DESIGN.md §4 C11",
@@ -202,7 +202,7 @@ CLAIMS["C05"] = {
             "and hand over (buffer, n) with the unparsed input [raw_start, free_start) located at [0, n) of the buffer (E8 region tracking through discard and "
             "compaction, whatever their spelling); the request parser's constructor stores that length and starts in the initial state (R5.3); the "
             "request parser's compaction - in move_input, or written out in parse - leaves the drive's remainder at [0, input_len) (R5.4, E8); in the async layer close() never drives the stream parser while it stands at a record boundary, where buffered bytes belong to "
-            "the next request (R5.5, must-dataflow on the event graph); parse() accounts for new_input on every return path, final states included (R5.6 = R3.2). Does NOT decide the behavioural consequence (k sequential requests == k separate connections).",
+            "the next request (R5.5, must-dataflow on the event graph); parse() accounts for new_input on every return path, final states included (R5.6 = R3.2); unread records are skipped with exact arithmetic for any amount of look-ahead (R5.7 = R3.11 for into_skip / SkipState::drive). Does NOT decide the behavioural consequence (k sequential requests == k separate connections).",
     "note": "copy_within / Vec::truncate semantics of std trusted.",
     "design_ref": "DESIGN.md §4 C05",
 }
@@ -216,7 +216,7 @@ CLAIMS["C06"] = {
             "payload goes to parse_stream with rec_end = false exactly under data.len() < payload_rem and otherwise as data[..payload_rem] with "
             "rec_end = true (R6.4), and with rec_end every unparsed byte is moved to the heap-side pair buffer and reported consumed (R6.5) - so a "
             "fragment at a record end never waits in the input buffer for padding; a partially received GetValues body is consumed pair by pair "
-            "(R6.6). R6.3 is decided on values (E8): result >= buffer_size, >= 24, multiple of 8. Does NOT decide the arithmetic sufficiency of B-13 itself.",
+            "(R6.6). R6.3 is decided on values (E8): result >= buffer_size, >= 24, multiple of 8. A parser's config is never replaced after construction without the buffer that belongs to it (R6.7). Does NOT decide the arithmetic sufficiency of B-13 itself.",
     "note": "usize::MAX is returned when buffer_size + 7 overflows (documented corner, accepted by R6.3).",
     "design_ref": "DESIGN.md §4 C06",
 }
@@ -274,7 +274,7 @@ CLAIMS["C01"] = {
             "are {own id & empty => done, own id & data => continue with (content_length, padding_length), else untouched} (R1.4); across "
             "all framing implementations a payload counter is only assigned the header's content_length, itself minus a consumed amount, "
             "or 0, and a padding counter likewise from padding_length (R1.5); the buffer really has at least the configured size the statement's "
-            "premise speaks of (R1.6); the framing code and the pair decoder agree on how many bytes of a pair that crosses a record boundary went into the pair buffer (R1.7 = R6.4 + R6.5). Does NOT decide equality of the decoded map for every record "
+            "premise speaks of (R1.6); the framing code and the pair decoder agree on how many bytes of a pair that crosses a record boundary went into the pair buffer (R1.7 = R6.4 + R6.5); the request parser for the next request of a kept connection starts at the unread input (R1.8 = R5.3). Does NOT decide equality of the decoded map for every record "
             "cut / read cut / buffer size: the cross-record reassembly arithmetic (parse_buffered, try_fill!) is value-level.",
     "note": "Name-value decoding itself is C16's subject; case-insensitive lookup is C19's.",
     "design_ref": "DESIGN.md §4 C01",
@@ -287,7 +287,7 @@ CLAIMS["C02"] = {
             "payload_rem -= n and (buffered mode) gap_start += n with copy_within of exactly n bytes from raw_start (R2.3: each byte once); "
             "the empty record of the active stream and any later stream are held back untouched and reported as end (R2.4); a stream "
             "change demotes and discards, and parse asserts an empty stream buffer before delivering into a caller buffer (R2.5); all "
-            "records of one call deliver through the same advancing caller-buffer cursor (R2.6); compress / consume_stream / discard_stream / stream_buffer keep every live byte region where the cursors say, also after partial consumption (R2.7 = R3.10, E8). Does NOT decide byte-exactness under all "
+            "records of one call deliver through the same advancing caller-buffer cursor (R2.6); compress / consume_stream / discard_stream / stream_buffer keep every live byte region where the cursors say, also after partial consumption (R2.7 = R3.10, E8); delivered bytes are also reported through the async read interfaces (R2.8 = R9.3 + R9.7). Does NOT decide byte-exactness under all "
             "fill / consume / compress schedules (four-cursor geometry arithmetic).",
     "note": "cmp_input_streams' loop is covered by the pinned stream_order test; C18 covers the tables around it.",
     "design_ref": "DESIGN.md §4 C02",
